@@ -35,6 +35,17 @@ ALL_PRESETS = PRESETS_SECTOR + ["sg_1"] + PRESETS_COUNT
 LIGHT = [1, 2, 3, 4, 5, 6, 7, 8, 9, 10, 11, 12, 13, 15, 16, 17, 18]  # 14 (Si) left out: sg_3 table row is a known C05 finding
 
 
+def _draw_rot(ctx, rng):
+    """`rotate` is documented as "bool or int": Python integer seeds and the two flags (NumPy integers are rejected
+    by AtomGrid itself on the unchanged tree, for hand-built grids just the same, so they decide nothing here); whatever is
+    passed to the constructor is passed unchanged to the hand-built atomic grids it must reproduce."""
+    u = rng.random()
+    if u < 0.7:
+        return int(rng.integers(0, 200))
+    ctx.hit("rotate:bool-flag")
+    return bool(rng.integers(0, 2))
+
+
 def cases(tier, seed):
     q = tier == "quick"
     out = []
@@ -245,7 +256,7 @@ def run_case(ctx, family, params):
     elif family == "from_size":
         atnums, coords = _molecule(rng)
         size = int(rng.integers(6, 200))
-        rot = int(rng.integers(0, 200))
+        rot = _draw_rot(ctx, rng)
         rg = None if rng.random() < 0.4 else _radial(rng)
         store = bool(rng.integers(0, 2))
         aim = None if rng.random() < 0.5 else _aim(rng)
@@ -284,7 +295,7 @@ def run_case(ctx, family, params):
             table_r = {int(z): _radial(rng) for z in set(atnums.tolist())}
             rgrid = table_r
             per_rg = [table_r[int(z)] for z in atnums]
-        rot = int(rng.integers(0, 200))
+        rot = _draw_rot(ctx, rng)
         store = bool(rng.integers(0, 2))
         aim = None if rng.random() < 0.5 else _aim(rng)
         ctx.case_note("preset_form", ["str", "list", "dict"][form])
@@ -322,7 +333,7 @@ def run_case(ctx, family, params):
             table_r = {int(z): _radial(rng) for z in set(atnums.tolist())}
             rgrid = table_r
             per_rg = [table_r[int(z)] for z in atnums]
-        rot = int(rng.integers(0, 200))
+        rot = _draw_rot(ctx, rng)
         store = bool(rng.integers(0, 2))
         aim = None if rng.random() < 0.5 else _aim(rng)
         ctx.case_note("sector_form", ["d_int", "d_lists", "s_lists", "s_int"][mode])
